@@ -418,6 +418,22 @@ pub fn drive_shared<'b, B: BumpAllocatorTypedScope<'b> + Clone>(ctx: &mut Ctx, b
                 let m = ms.swap_remove(t);
                 let was_part = parts.swap_remove(t);
                 let b = bump.clone();
+                if (op.a[1] / 3) % 4 == 3 && !matches!(v, AnyS::Boxed(_)) {
+                    // `into_str`: the text as a plain `&mut str` living in the arena (ends this string's life here)
+                    let got: &mut str = match v {
+                        AnyS::Str(s) => s.into_str(),
+                        AnyS::Fixed(s) => s.into_str(),
+                        AnyS::Boxed(_) => unreachable!(),
+                    };
+                    ctx.stats.probe("convert.into_str");
+                    if got != m.as_str() {
+                        ctx.viol("C09/conversion-contents", format!("into_str: got {:?}, expected {:?}", got, m));
+                    }
+                    if std::str::from_utf8(got.as_bytes()).is_err() {
+                        ctx.viol("C09/invalid-utf8", "into_str returned invalid UTF-8".into());
+                    }
+                    continue;
+                }
                 let nv = match v {
                     AnyS::Str(s) => match op.a[1] % 3 {
                         0 => AnyS::Boxed(s.into_boxed_str()),
@@ -648,10 +664,9 @@ fn one_mut<'b, B: MutBumpAllocatorTypedScope<'b> + BumpAllocatorCore>(ctx: &mut 
             StrFin::Unfinalised
         }
         K_CONVERT => {
-            let b = v.into_boxed_str();
-            let got = b.to_string();
+            let got = if (fin.a[1] / 3) % 2 == 1 { v.into_str().to_string() } else { v.into_boxed_str().to_string() };
             if got != m {
-                ctx.viol("C09/conversion-contents", format!("into_boxed_str: got {:?}, expected {:?}", got, m));
+                ctx.viol("C09/conversion-contents", format!("into_boxed_str / into_str: got {:?}, expected {:?}", got, m));
             }
             StrFin::Finalised(got.len())
         }
